@@ -28,15 +28,13 @@ def _sp():
 
 
 def fb_matrix(x, P):
+    """forward-backward data matrix from its definition: FB[I,K] = x[I-K+P-1], FB[I+NP,K] = conj(x[I+K+1]), NP = min(N-P, 100)"""
     x = np.asarray(x).astype(complex)
     N = len(x)
     NP = min(N - P, 100)
-    FB = np.zeros((2 * NP, P), dtype=complex)
-    for i in range(NP):
-        for k in range(P):
-            FB[i, k] = x[i - k + P - 1]
-            FB[i + NP, k] = np.conj(x[i + k + 1])
-    return FB
+    I = np.arange(NP)[:, None]
+    K = np.arange(P)[None, :]
+    return np.vstack((x[I - K + P - 1], np.conj(x[I + K + 1])))
 
 
 # ---- correspondence: function output given the SVD -------------------------------------------------
@@ -52,7 +50,8 @@ def model_psd(p):
     FB = fb_matrix(p["x"], p["P"])
     _U, S, Vh = np.linalg.svd(FB)
     cols = [-Vh[i, :] for i in range(p["P"])]
-    return ("F", proto.request("eigenpsd", "F", [p["P"], p["nfft"], p["nsig"], 1 if p["method"] == "ev" else 0], [S] + cols))
+    Se = np.concatenate((S, [np.finfo(float).eps]))   # singular values + the epsilon of the EV divisor floor
+    return ("F", proto.request("eigenpsd", "F", [p["P"], p["nfft"], p["nsig"], 1 if p["method"] == "ev" else 0], [Se] + cols))
 
 
 def impl_fb(p):
